@@ -17,7 +17,7 @@ func (s *StructSpec) Clone() *StructSpec {
 		if c, ok := memo[s]; ok {
 			return c
 		}
-		c := &StructSpec{}
+		c := &StructSpec{NoLowerCase: s.NoLowerCase}
 		memo[s] = c
 		for _, f := range s.Fields {
 			g := *f
@@ -66,8 +66,11 @@ func Evolve(t *rapid.T, v1 *StructSpec, o GenOptions) (*StructSpec, []string) {
 		seen[s] = true
 		for _, f := range s.Fields {
 			if f.Embedded != nil {
+				if f.FixedType != nil {
+					continue // an existing Go type: its tags cannot change
+				}
 				collect(f.Embedded, twice || shared[f.Embedded] > 1)
-			} else if !f.Marker && !f.Shadowed {
+			} else if !f.Marker && !f.Shadowed && !f.Ignored {
 				leaves = append(leaves, f)
 				if twice {
 					f.CheckName = "-" // marks: explicit names not allowed (declared twice)
